@@ -36,9 +36,10 @@ klass("FortranSyntaxError", bases=("FparserException",), exception=True)
 klass("InternalError", bases=("FparserException",), exception=True)
 klass("InternalSyntaxError", bases=("FparserException",), exception=True)
 
-klass("Base", module="fparser.two.utils", fields=dict(parent="ref:Base?", item="ref?", string="any", content="list[ref:Base]", items="any"))
+klass("Base", module="fparser.two.utils", fields=dict(parent="ref:Base?", item="ref?", string="any", content="list[ref:Base]", items="list[any]"))
 klass("BlockBase", bases=("Base",), module="fparser.two.utils")
 klass("StmtBase", bases=("Base",), module="fparser.two.utils")
+klass("SequenceBase", bases=("Base",), module="fparser.two.utils", fields=dict(separator="str"))
 klass("EndStmtBase", bases=("StmtBase",), module="fparser.two.utils")
 klass("ScopingRegionMixin", module="fparser.two.utils")
 
